@@ -25,6 +25,7 @@ type World struct {
 	colls       []*column.Collection
 	inserts     map[int][]uint32 // offsets inserted by the thread's current transaction (Target mode "mine")
 	trig        *trigLog
+	trigRep     *trigLog                                                                 // C19: the same expectations for the triggers of a replica fed the stream
 	seq         uint64                                                                   // global event sequence number
 	hookFn      func(c *column.Collection, latch *smutex.SMutex128, p uint8, arg uint32) // extra per-world hook bookkeeping
 	conc        *concState
@@ -237,6 +238,9 @@ func (w *World) applyBlock(t *MTxn, block uint32) {
 	}
 	if w.trig != nil {
 		w.trig.expect(changes)
+	}
+	if w.trigRep != nil {
+		w.trigRep.expect(changes)
 	}
 }
 
